@@ -518,8 +518,32 @@ func searchExt(r *hx.Rng, ops []wop) int {
 			rd.ReadSignedGolomb()
 		}
 	}
-	if err := rd.ReadRbspTrailingBits(); err == nil {
-		fail("bits.EBSPReader.ReadRbspTrailingBits", "accepts-malformed-trailing-bits", opsString(bad), fmt.Sprintf("kind %d (0: starts with 0, 1: a second 1): returned nil", kind))
+	if got, want := trailClass(rd.ReadRbspTrailingBits()), []string{"T1", "T2"}[kind]; got != want {
+		fail("bits.EBSPReader.ReadRbspTrailingBits", "accepts-malformed-trailing-bits", opsString(bad), fmt.Sprintf("kind %d (0: starts with 0, 1: a second 1): returned class %s (T0 nil, T1 no leading 1, T2 second 1), want %s", kind, got, want))
+	}
+	// ---- (2b) WriteSEIValue: 0xff bytes and a last byte < 0xff that sum to the value (H.264 7.3.2.3.1)
+	evals++
+	{
+		var sops []wop
+		for j := r.Range(1, 4); j > 0; j-- {
+			sops = append(sops, wop{k: 'v', v: uint64(r.Pick(0, 1, 254, 255, 256, 509, 510, 511, 765, r.Intn(3000)))})
+		}
+		sb, _ := runEBSPWriter(sops)
+		srd := bits.NewEBSPReader(bytes.NewReader(sb))
+		for j, o := range sops {
+			sum := uint64(0)
+			for {
+				b := srd.Read(8)
+				sum += uint64(b)
+				if b != 0xff || srd.AccError() != nil {
+					break
+				}
+			}
+			if sum != o.v || srd.AccError() != nil {
+				fail("bits.EBSPWriter.WriteSEIValue", "roundtrip-value", opsString(sops), fmt.Sprintf("value %d: wrote %d, the ff-coded bytes sum to %d (acc=%v)", j, o.v, sum, srd.AccError()))
+				break
+			}
+		}
 	}
 	// ---- (3) two's complement through Writer.Write / Reader.ReadSigned
 	evals++
